@@ -402,6 +402,7 @@ pub struct SrcCore {
     err_fired: bool,
     eof_fired: bool,
     eintr_at_eof: u8,
+    eintr_at_eof0: u8,
     err_after_eof: Option<IoKind>,
     real_eof_reported: bool,
     open_err: Option<IoKind>,
@@ -436,6 +437,7 @@ impl SimSource {
             err_fired: false,
             eof_fired: false,
             eintr_at_eof,
+            eintr_at_eof0: eintr_at_eof,
             err_after_eof: cfg.err_after_eof,
             real_eof_reported: false,
             open_err: cfg.open_err,
@@ -443,6 +445,28 @@ impl SimSource {
             log,
         }));
         (SimSource { core: core.clone(), hi }, core)
+    }
+
+    /// A fresh handle on the same file, read from the start again with the same schedule
+    /// and faults.
+    #[allow(dead_code)]
+    fn rewound(core: &Rc<RefCell<SrcCore>>) -> SimSource {
+        let hi = {
+            let c = &mut *core.borrow_mut();
+            c.pos = 0;
+            c.resumed_at = None;
+            c.chunk_i = 0;
+            c.calls = 0;
+            c.consecutive_eintr = 0;
+            c.err_fired = false;
+            c.eof_fired = false;
+            c.eintr_at_eof = c.eintr_at_eof0;
+            c.real_eof_reported = false;
+            let n = c.data.len();
+            c.log.borrow_mut().event('O', 1, 0, "reopen", n);
+            n
+        };
+        SimSource { core: core.clone(), hi }
     }
 
     /// The answer of `File::open` for this source, when the scenario makes it fail.
@@ -892,10 +916,12 @@ struct OneFile {
     path: std::path::PathBuf,
     src: RefCell<Option<SimSource>>,
     sink: RefCell<Option<SimSink>>,
-    /// The file's bytes and the run's log, for a wrapper that opens the file again
-    /// (sniffing the format first, retrying after a failed open): every later open
-    /// finds the same file, behaving plainly.
-    again: Option<(Vec<u8>, Rc<RefCell<Log>>)>,
+    /// For a wrapper that opens the file again (sniffing the format first, retrying after
+    /// a failed open): every later open finds the same file behaving the same way from
+    /// the start — the source is rewound, its schedule and faults replayed — so that what
+    /// the oracles read off the source afterwards (bytes delivered, where a premature end
+    /// was answered) describes the pass that produced the result.
+    again: Option<Rc<RefCell<SrcCore>>>,
 }
 
 #[cfg(retrofire_verif)]
@@ -904,16 +930,15 @@ impl re::util::verif_fs::SimFs for OneFile {
         if path != self.path {
             return None;
         }
-        Some(match (self.src.borrow_mut().take(), &self.again) {
-            (Some(s), _) => match s.open_fault() {
-                Some(e) => Err(e),
-                None => Ok(Box::new(s) as Box<dyn Read>),
-            },
-            (None, Some((data, log))) => {
-                log.borrow_mut().event('O', 1, 0, "reopen", data.len());
-                Ok(Box::new(SimSource::new(data.clone(), &ReaderCfg::plain(), log.clone()).0) as Box<dyn Read>)
-            }
-            (None, None) => Err(io::ErrorKind::NotFound.into()),
+        let first = self.src.borrow_mut().take();
+        let s = match (first, &self.again) {
+            (Some(s), _) => s,
+            (None, Some(core)) => SimSource::rewound(core),
+            (None, None) => return Some(Err(io::ErrorKind::NotFound.into())),
+        };
+        Some(match s.open_fault() {
+            Some(e) => Err(e),
+            None => Ok(Box::new(s) as Box<dyn Read>),
         })
     }
     fn create(&self, path: &std::path::Path) -> Option<io::Result<Box<dyn Write>>> {
@@ -966,10 +991,7 @@ pub fn drive_reader<C: ReadConsumer>(stack: RStack, src: SimSource, c: C) -> C::
             let path = sim_path();
             // the same bytes as a real file, for a wrapper that goes around the seam
             let _ = std::fs::write(&path, &src.core.borrow().data);
-            let again = {
-                let c = src.core.borrow();
-                Some((c.data.clone(), c.log.clone()))
-            };
+            let again = Some(src.core.clone());
             re::util::verif_fs::install(Some(Box::new(OneFile { path: path.clone(), src: RefCell::new(Some(src)), sink: RefCell::new(None), again })));
             let _guard = Uninstall;
             c.consume_path(&path)
